@@ -252,7 +252,12 @@ func c10Histories(c *mc.Ctx, cfg ref.Cfg, it ref.Item, p0 ref.V, alias int, dept
 	rec()
 }
 
+var c10Runs int
+
 func c10Run(c *mc.Ctx, pre string, cfg ref.Cfg, it ref.Item, p0 ref.V, alias int, hist []ref.V, zero string) {
+	if c10Runs++; c10Runs%64 == 0 {
+		c.Heartbeat() // one announced unit holds many histories
+	}
 	t := it.T
 	var viol, detail string
 	fail := func(sig, d string) {
